@@ -316,6 +316,16 @@ func runC18(c *vh.Case, spec c18Spec) *c18World {
 		w.mu.Unlock()
 		return &mcp.ReadResourceResult{Contents: []*mcp.ResourceContents{{URI: req.Params.URI, Text: fmt.Sprintf("%d", n)}}}, nil
 	}
+	// a removal call may name further, unknown items (in any position): decided by the item's number
+	withUnknown := func(id, unknown string, name string) []string {
+		switch (int(name[len(name)-1]) - '0') % 4 {
+		case 1:
+			return []string{id, unknown}
+		case 2:
+			return []string{unknown, id, unknown + "-2"}
+		}
+		return []string{id}
+	}
 	apply := func(listKind, name string, add bool) {
 		switch listKind {
 		case "tools":
@@ -324,7 +334,7 @@ func runC18(c *vh.Case, spec c18Spec) *c18World {
 					return &mcp.CallToolResult{}, nil
 				})
 			} else {
-				server.RemoveTools(name)
+				server.RemoveTools(withUnknown(name, "no-such-tool", name)...)
 			}
 		case "prompts":
 			if add {
@@ -332,19 +342,19 @@ func runC18(c *vh.Case, spec c18Spec) *c18World {
 					return &mcp.GetPromptResult{}, nil
 				})
 			} else {
-				server.RemovePrompts(name)
+				server.RemovePrompts(withUnknown(name, "no-such-prompt", name)...)
 			}
 		case "resources":
 			if add {
 				server.AddResource(&mcp.Resource{Name: name, URI: "file:///" + name}, readHandler)
 			} else {
-				server.RemoveResources("file:///" + name)
+				server.RemoveResources(withUnknown("file:///"+name, "file:///no-such", name)...)
 			}
 		case "templates":
 			if add {
 				server.AddResourceTemplate(&mcp.ResourceTemplate{Name: name, URITemplate: "tpl:///" + name + "/{x}"}, readHandler)
 			} else {
-				server.RemoveResourceTemplates("tpl:///" + name + "/{x}")
+				server.RemoveResourceTemplates(withUnknown("tpl:///"+name+"/{x}", "tpl:///no-such/{x}", name)...)
 			}
 		}
 	}
